@@ -27,9 +27,28 @@ func (n *verifNeighbor) NeedsTable(ctx context.Context, uri string) (bool, error
 
 var verifErrUnreachable = errors.New("neighbor unreachable")
 
+// verifOperatorNeighbor is a real Operator reached the way the RPC layer reaches it: a panic in
+// the handler fails the call (the HTTP server recovers it and the client sees an error).
+type verifOperatorNeighbor struct {
+	proto.UnimplementedOperator
+	op    *Operator
+	asked *int
+}
+
+func (n *verifOperatorNeighbor) NeedsTable(ctx context.Context, uri string) (needs bool, err error) {
+	*n.asked++
+	defer func() {
+		if r := recover(); r != nil {
+			needs, err = false, errors.New("rpc failed: handler panicked")
+		}
+	}()
+	return n.op.HandleNeedsTable(uri), nil
+}
+
 // Harness_C09_SharedTable: a table loaded from a checkpoint document is garbage collected by
 // an operator that shares it with 1-2 neighbours (after a rescale). Each neighbour overlapping
-// the table answers NeedsTable with yes / no / an error, in any order. The file may be deleted
+// the table answers NeedsTable with yes / no / an error - or is a real operator that has not
+// been deployed yet - in any order. The file may be deleted
 // only if every overlapping neighbour answered "no" without error.
 func Harness_C09_SharedTable() {
 	verif.ScheduleMode(verif.Param("MODE", 1), -1)
@@ -59,13 +78,21 @@ func Harness_C09_SharedTable() {
 	var neighbors []neighborPartition
 	var answers []int // 0 no, 1 yes, 2 error
 	for i := 0; i < nNeighbors; i++ {
-		a := verif.Choose("answer", 3)
+		// 0 no, 1 yes, 2 error, 3 a real operator that has not been deployed yet (it is about to load
+		// the checkpoint that references the table, so it can not say "no")
+		a := verif.Choose("answer", 4)
 		answers = append(answers, a)
-		n := &verifNeighbor{needs: a == 1, asked: &asked}
-		if a == 2 {
-			n.err = verifErrUnreachable
+		var nb proto.Operator
+		if a == 3 {
+			nb = &verifOperatorNeighbor{op: NewOperator(NewOperatorParams{ID: "nb", Host: "h"}), asked: &asked}
+		} else {
+			n := &verifNeighbor{needs: a == 1, asked: &asked}
+			if a == 2 {
+				n.err = verifErrUnreachable
+			}
+			nb = n
 		}
-		neighbors = append(neighbors, neighborPartition{keyGroupRange: partitioning.KeyGroupRange{Start: 2 + i, End: 3 + i}, operator: n})
+		neighbors = append(neighbors, neighborPartition{keyGroupRange: partitioning.KeyGroupRange{Start: 2 + i, End: 3 + i}, operator: nb})
 	}
 	part := newOperatorPartition(partitioning.KeyGroupRange{Start: 0, End: 2}, neighbors)
 
